@@ -328,7 +328,7 @@ fn run(cfg: &Cfg) -> Report {
         cfg,
         "proptest-generated assertions, each placed between marker statements (`print(\"before\")` / `print(\"after\")`, a definition, `print(\"end\")`) in one input: assert(c) for boolean expression trees with a reference truth value; assert_eq(a,b) for quantities in the same unit (exact dyadic values), in different units (b obtained by numbat's own conversion => must succeed; b scaled by a factor away from 1 => must fail), strings/booleans/lists; assert_eq(a,b,eps) with exact dyadic values including the boundary |a-b| = eps, and with a, b, eps in three different units of one dimension where |a-b| and eps differ by a factor >= 1.1; NaN operands. Oracle: success iff the documented predicate holds; on failure the error kind is the assertion's, nothing after the assertion ran (no print, the later definition does not exist); on success everything ran. non-trivial = different units, boundary, non-quantity or NaN case; distinct = input text",
     );
-    let cases = cfg.tier.pick(3000u32, 30000u32);
+    let cases = cfg.tier.pick(8000u32, 60000u32);
     rep.absorb(run_proptest(
         cfg,
         "assertions",
